@@ -320,6 +320,8 @@ impl<C: IterConfig> BucketIter<C> {
         // Check live indexes first
         if let Some((segment_id, index)) = live_indexes.get(&bucket_id) {
             let segment_id = segment_id.load(Ordering::Acquire);
+            #[cfg(feature = "verif-hooks")]
+            crate::verif::pause("iter:after-live-segment-id");
             let matches = match dir {
                 IterDirection::Forward => segment_id >= next_segment_id,
                 IterDirection::Reverse => segment_id <= next_segment_id,
